@@ -17,9 +17,11 @@ type C04Case struct {
 	GoTypes map[string]map[string]string `json:"go_types,omitempty"`
 	Type    string                       `json:"type"` // inner | left | right
 	On      *sq.E                        `json:"on"`
-	OnAlt   *sq.E                        `json:"on_alt"`        // same condition, conjuncts shuffled / operands flipped
-	Reps    int                          `json:"reps"`          // repetitions of PARALLEL variants
-	Env     Envelope                     `json:"env,omitempty"` // irrelevant options / table representation / history (never Wrapped: joins name two tables)
+	OnAlt   *sq.E                        `json:"on_alt"` // same condition, conjuncts shuffled / operands flipped
+	Reps    int                          `json:"reps"`   // repetitions of PARALLEL variants
+	// Alias: the two table aliases ("" = x / y). They may be spelled like a column or like the tables themselves.
+	Alias [2]string `json:"alias,omitempty"`
+	Env   Envelope  `json:"env,omitempty"` // irrelevant options / table representation / history (never Wrapped: joins name two tables)
 }
 
 func init() {
@@ -42,6 +44,25 @@ func init() {
 		},
 		Gen: func(t *rapid.T) any {
 			c := genC04(t).(*C04Case)
+			if rapid.IntRange(0, 3).Draw(t, "alias") == 0 {
+				cols := func(table string) []string {
+					rows, _ := c.Doc[table].([]any)
+					if len(rows) == 0 {
+						return []string{"x"}
+					}
+					return mapKeys(rows[0].(map[string]any))
+				}
+				switch rapid.IntRange(0, 3).Draw(t, "aliaskind") {
+				case 0:
+					c.Alias = [2]string{"l", "r"} // the tables' own names
+				case 1:
+					c.Alias = [2]string{"y", "x"}
+				case 2:
+					c.Alias = [2]string{rapid.SampledFrom(cols("l")).Draw(t, "aliasl"), rapid.SampledFrom(cols("r")).Draw(t, "aliasr")} // spelled like columns
+				default:
+					c.Alias = [2]string{"r", "l"} // each other's names
+				}
+			}
 			c.Env = genEnvelope(t, "env")
 			c.Env.Wrapped = false
 			return c
@@ -87,6 +108,9 @@ func genC04(t *rapid.T) any {
 	}
 	mk := func(side string, names []string, label string) []any {
 		n := rapid.IntRange(0, 6).Draw(t, label+".nrows")
+		if rapid.IntRange(0, 14).Draw(t, label+".many") == 0 {
+			n = rapid.IntRange(13, 24).Draw(t, label+".manyrows")
+		}
 		rows := []any{}
 		for r := 0; r < n; r++ {
 			row := map[string]any{}
@@ -333,8 +357,63 @@ func spellingsFor(typ string, equi bool) []joinSpelling {
 	return s
 }
 
-func joinSQL(kw string, on *sq.E) string {
-	return "SELECT * FROM l x " + kw + " r y ON " + renderOn(on)
+func (c *C04Case) aliases() (string, string) {
+	if c.Alias[0] == "" || c.Alias[1] == "" || c.Alias[0] == c.Alias[1] {
+		return "x", "y"
+	}
+	return c.Alias[0], c.Alias[1]
+}
+
+// joinSQL renders the join under the case's aliases (the ON tree is written over x / y).
+func (c *C04Case) joinSQL(kw string, on *sq.E) string {
+	ax, ay := c.aliases()
+	var re func(e *sq.E) *sq.E
+	re = func(e *sq.E) *sq.E {
+		n := *e
+		if e.K == "col" {
+			switch {
+			case strings.HasPrefix(e.S, "x."):
+				n.S = ax + e.S[1:]
+			case strings.HasPrefix(e.S, "y."):
+				n.S = ay + e.S[1:]
+			}
+		}
+		n.A = make([]*sq.E, len(e.A))
+		for i, a := range e.A {
+			n.A[i] = re(a)
+		}
+		return &n
+	}
+	return "SELECT * FROM l " + ax + " " + kw + " r " + ay + " ON " + renderOn(re(on))
+}
+
+// unalias renames the alias keys of result rows back to x / y.
+func (c *C04Case) unalias(rows []any) []any {
+	ax, ay := c.aliases()
+	if ax == "x" && ay == "y" {
+		return rows
+	}
+	out := make([]any, len(rows))
+	for i, r := range rows {
+		m, ok := r.(map[string]any)
+		if !ok {
+			out[i] = r
+			continue
+		}
+		n := make(map[string]any, len(m))
+		for k, v := range m {
+			switch k {
+			case ax:
+				n["x"] = v
+			case ay:
+				n["y"] = v
+			default:
+				n["other:"+k] = v
+			}
+		}
+		out[i] = n
+	}
+	return out
 }
 
 // c04KnownKey classifies a case into the open known-finding classes (generator-level predicate).
@@ -391,9 +470,9 @@ func checkC04(c *C04Case) Result {
 		if !out.OK() {
 			return fmt.Sprintf("%s\n  expected multiset %s\n  got %s", sql, val.JSON(want), out.Describe())
 		}
-		got := normJoinRows(out.Rows)
+		got := normJoinRows(c.unalias(out.Rows))
 		if big {
-			got = normJoinRows(val.NormRows(unbig(out.Raw).([]any)))
+			got = normJoinRows(c.unalias(val.NormRows(unbig(out.Raw).([]any))))
 		}
 		if !val.MultisetEqual(got, want) {
 			return fmt.Sprintf("%s (%s)\n  expected multiset (%d rows) %s\n  got               (%d rows) %s", sql, label, len(want), val.JSON(want), len(got), val.JSON(got))
@@ -406,7 +485,7 @@ func checkC04(c *C04Case) Result {
 			n = reps
 		}
 		for i := 0; i < n; i++ {
-			if v := run(joinSQL(sp.kw, c.On), "strategy "+sp.kw); v != "" {
+			if v := run(c.joinSQL(sp.kw, c.On), "strategy "+sp.kw); v != "" {
 				res.Violation = v
 				return res
 			}
@@ -415,7 +494,7 @@ func checkC04(c *C04Case) Result {
 	}
 	if c.OnAlt != nil {
 		kw := map[string]string{"inner": "JOIN", "left": "LEFT JOIN", "right": "RIGHT JOIN"}[c.Type]
-		if v := run(joinSQL(kw, c.OnAlt), "ON conjuncts permuted / operands flipped"); v != "" {
+		if v := run(c.joinSQL(kw, c.OnAlt), "ON conjuncts permuted / operands flipped"); v != "" {
 			res.Violation = v
 			return res
 		}
